@@ -404,3 +404,107 @@ Definition apply_event (tab : list Z) (elsize : Z) (c : cstate) (e : event) : cs
   | EFree id KCnt => mkC (fst (fl_desallocate (c_a c) (Some (get 0%nat (c_cnt c) id)))) (c_data c) (c_cnt c)
   end.
 Definition apply_events tab elsize c evs := fold_left (apply_event tab elsize) evs c.
+
+(* ------------------------------------------------------------------ layer 4 : GivMMRefCount (givaromm.h:165-290, givaromm.C:225-255)
+   The reference count lives in data[0] of the block (rs_cnt: address -> data[0]); the pointers the callers hold
+   are the slots rs_q (None = null pointer).  Block addresses and free lists are those of layer 2. *)
+Record rstate := mkRS { rs_a : astate; rs_cnt : list (nat * Z); rs_q : list (option nat) }.
+Definition rinit (nq : nat) := mkRS ainit [] (repeat None nq).
+Definition rcnt (r : rstate) (p : nat) : Z := get 0 (rs_cnt r) p.
+Definition getq (r : rstate) (i : nat) : option nat := nth i (rs_q r) None.
+Definition setq (r : rstate) (i : nat) (v : option nat) := mkRS (rs_a r) (rs_cnt r) (upd i v (rs_q r)).
+Definition set_cnt (r : rstate) (p : nat) (v : Z) := mkRS (rs_a r) (set p v (rs_cnt r)) (rs_q r).
+Definition set_a (r : rstate) (a : astate) := mkRS a (rs_cnt r) (rs_q r).
+
+(* void* GivMMRefCount::allocate(const size_t s): sz = s + sizeof(int64_t); same fast path as GivMMFreeList::allocate;
+   tmp->data[0] = 1.  When _allocate throws (no size class) the model keeps the state. *)
+Definition rc_allocate (tab : list Z) (r : rstate) (s : Z) : rstate * option nat * option adefect :=
+  let sz := s + 8 in
+  let res :=
+    if (sz <=? 32) && negb (match tabfree (rs_a r) (Z.to_nat (sz - 1)) with [] => true | _ => false end) then
+      let '(a1, p) := pop_or_malloc (rs_a r) (Z.to_nat (sz - 1)) in (a1, Some p, None)
+    else _allocate tab (rs_a r) sz in
+  match res with
+  | (a1, Some p, d) => (set_cnt (set_a r a1) p 1, Some p, d)
+  | (_, None, d) => (r, None, d)
+  end.
+
+(* void GivMMRefCount::desallocate(void* p): if (p==0) return; if (--(tmp->data[0]) == 0) { link into TabFree[index] } *)
+Definition rc_desallocate (r : rstate) (op : option nat) : rstate :=
+  match op with
+  | None => r
+  | Some p =>
+    let n := rcnt r p - 1 in
+    if n =? 0 then set_a (set_cnt r p n) (fst (fl_desallocate (rs_a r) (Some p))) else set_cnt r p n
+  end.
+
+(* void* GivMMRefCount::assign(void** dest, void* src)      givaromm.h:221
+     if (src == *dest) return *dest; if ( *dest != 0) desallocate( *dest ); if (src == 0) return *dest = src;
+     ++(s->data[0]); return *dest = src;                    dest = slot i *)
+Definition rc_assign (r : rstate) (i : nat) (src : option nat) : rstate :=
+  let dest := getq r i in
+  if option_nat_eqb src dest then r
+  else
+    let r1 := match dest with Some _ => rc_desallocate r dest | None => r end in
+    match src with
+    | None => setq r1 i None
+    | Some s => setq (set_cnt r1 s (rcnt r1 s + 1)) i (Some s)
+    end.
+
+Definition rc_incrc (r : rstate) (op : option nat) : rstate * Z :=
+  match op with None => (r, 0) | Some p => let n := rcnt r p + 1 in (set_cnt r p n, n) end.
+Definition rc_decrc (r : rstate) (op : option nat) : rstate * Z :=
+  match op with None => (r, 0) | Some p => let n := rcnt r p - 1 in (set_cnt r p n, n) end.
+Definition rc_getrc (r : rstate) (op : option nat) : Z :=
+  match op with None => 0 | Some p => rcnt r p end.
+
+(* void* GivMMRefCount::resize(void* p, const size_t oldsize, const size_t newsize)      givaromm.C:225 *)
+Definition rc_resize (tab : list Z) (r : rstate) (op : option nat) (oldsize newsize : Z)
+  : rstate * option nat * option adefect :=
+  match op with
+  | None => rc_allocate tab r newsize          (* repaired (f88856f): the count of the new block is set to 1 *)
+  | Some p =>
+    (* tmp = _allocate(newsize + 8); tmp->data[0] = 1; memcpy(min(oldsize,newsize)) *)
+    let fresh (r0 : rstate) :=
+        match _allocate tab (rs_a r0) (newsize + 8) with
+        | (a1, Some t, d) => (set_cnt (set_a r0 a1) t 1, Some t, d)
+        | (_, None, d) => (r, Some p, d)        (* GivError: the model keeps the state before the call *)
+        end in
+    if rcnt r p =? 1 then
+      if newsize <=? oldsize then (r, Some p, None)
+      else if 8 + newsize <=? nth (cls (rs_a r) p) tab 0 then (r, Some p, None)
+      else fresh (rc_desallocate r (Some p))
+    else fresh (set_cnt r p (rcnt r p - 1))
+  end.
+
+(* operations of the harness on the pointer variables q[0..n): each non-null variable owns one reference *)
+Inductive rop :=
+| QNew (i : nat) (s : Z)             (* np = allocate(s); desallocate(q[i]); q[i] = np *)
+| QAssign (i j : nat)                (* assign(&q[i], q[j])      (j = i: self assignment; q[j] may be null) *)
+| QAssignNull (i : nat)              (* assign(&q[i], 0) *)
+| QFree (i : nat)                    (* desallocate(q[i]); q[i] = 0 *)
+| QResize (i : nat) (old new : Z)    (* q[i] = resize(q[i], old, new) *)
+| QProbe (i : nat).                  (* incrc(q[i]); getrc(q[i]); decrc(q[i]): the three values are observed *)
+
+Definition rstep (tab : list Z) (r : rstate) (o : rop) : rstate * list Z :=
+  match o with
+  | QNew i s =>
+    match rc_allocate tab r s with
+    | (r1, Some p, _) => (setq (rc_desallocate r1 (getq r1 i)) i (Some p), [])
+    | (_, None, _) => (r, [])
+    end
+  | QAssign i j => (rc_assign r i (getq r j), [])
+  | QAssignNull i => (rc_assign r i None, [])
+  | QFree i => (setq (rc_desallocate r (getq r i)) i None, [])
+  | QResize i old new =>
+    match rc_resize tab r (getq r i) old new with
+    | (r1, op, _) => (setq r1 i op, [])
+    end
+  | QProbe i =>
+    let '(r1, a) := rc_incrc r (getq r i) in
+    let b := rc_getrc r1 (getq r i) in
+    let '(r2, c) := rc_decrc r1 (getq r i) in
+    (r2, [a; b; c])
+  end.
+Definition rrun (tab : list Z) (r : rstate) (ops : list rop) : rstate :=
+  fold_left (fun r o => fst (rstep tab r o)) ops r.
